@@ -55,19 +55,20 @@ class AxiSlave(AxilSlave):
 
 
 class AxilIC(Mon):
-    def __init__(self, kind, M, S, amap, dw=8, aw=6, timeout=None, std="lite"):
+    def __init__(self, kind, M, S, amap, dw=8, aw=6, timeout=None, std="lite", maws=None):
         from litex.soc.interconnect import axi
         from litex.soc.integration.soc import SoCRegion
         self.M, self.S = M, S
         self.std = std
         if std == "lite":
-            self.ms = ms = [axi.AXILiteInterface(data_width=dw, address_width=aw) for _ in range(M)]
+            self.ms = ms = [axi.AXILiteInterface(data_width=dw, address_width=(maws[i] if maws else aw)) for i in range(M)]
             self.ss = ss = [axi.AXILiteInterface(data_width=dw, address_width=aw) for _ in range(S)]
         else:
             self.ms = ms = [axi.AXIInterface(data_width=dw, address_width=aw, id_width=1) for _ in range(M)]
             self.ss = ss = [axi.AXIInterface(data_width=dw, address_width=aw, id_width=1) for _ in range(S)]
         regs = [SoCRegion(origin=o, size=sz) for (o, sz) in amap[:S]]
-        decs = [(regs[i].decoder(ms[0]), ss[i]) for i in range(S)]
+        widest = max(ms, key=lambda m_: m_.address_width)
+        decs = [(regs[i].decoder(widest), ss[i]) for i in range(S)]
         ic = {("lite", "shared"): axi.AXILiteInterconnectShared, ("lite", "crossbar"): axi.AXILiteCrossbar,
               ("full", "shared"): axi.AXIInterconnectShared, ("full", "crossbar"): axi.AXICrossbar}[(std, kind)]
         self.submodules.dut = ic(ms, decs, timeout_cycles=timeout)
@@ -255,9 +256,9 @@ FUNCS_FULL = ["litex.soc.interconnect.axi.axi_full._AXIRequestCounter", "litex.s
               "litex.soc.integration.soc.SoCRegion.decoder"]
 
 
-def build(kind, M, S, mapname, K, std="lite"):
-    top = AxilIC(kind, M, S, MAPS[mapname], std=std)
-    name = "%s_%s_%dx%d_%s" % ("axil" if std == "lite" else "axi", kind, M, S, mapname)
+def build(kind, M, S, mapname, K, std="lite", maws=None):
+    top = AxilIC(kind, M, S, MAPS[mapname], std=std, maws=maws)
+    name = "%s_%s_%dx%d_%s%s" % ("axil" if std == "lite" else "axi", kind, M, S, mapname, "" if not maws else "_aw" + "_".join(map(str, maws)))
     exc = {k: [top.exc] for k in top.bads}
     if std == "full":
         return H(name, top, top.free, rigid=[top.mi, top.N, top.L], assume=top.assume, bad=top.bads, witness=dict(every_master_wrote_and_read=top.w_all, two_outstanding=top.w_two),
@@ -309,6 +310,7 @@ def jobs(tier):
         cfgs = [("shared", 2, 2, "adjacent", 10), ("shared", 2, 3, "hole", 10), ("crossbar", 2, 2, "hole", 10), ("shared", 1, 2, "gapped", 10),
                 # more masters than slaves (the access matrix is masters x slaves, not square)
                 ("crossbar", 2, 1, "hole", 10)]
+        js.append(Job("axil_shared_2x2_adjacent_aw5_6", build, dict(kind="shared", M=2, S=2, mapname="adjacent", K=10, maws=(5, 6)), cost=20, timeout_s=5000))
     for (kind, m, s, mp, K) in cfgs:
         js.append(Job("axil_%s_%dx%d_%s" % (kind, m, s, mp), build, dict(kind=kind, M=m, S=s, mapname=mp, K=K), cost=m * s * (3 if kind == "crossbar" else 1) * K, timeout_s=5000))
     # AXI4 twins (bursts of 1..3 beats, rigid symbolic length)
